@@ -11,7 +11,7 @@ ENGINE = "bfs-on-implementation"
 CHECKS = {
  "C04": ("model_checking",
   "explicit-state BFS over operation histories on the real stores vs reference map",
-  "Every history of bounded depth over a layout-edge alphabet (adds, weighted adds, bins, merges from every store kind, copies, clears, reweightings, binary and protobuf round trips, reads), from every seed state, is executed on the real dense, sparse and buffered-paginated stores; each distinct concrete state is compared observer by observer with the mathematical index->weight map. Bounded-exhaustive: a coverage statement over all histories within the bound, not a sample.",
+  "Every history of bounded depth over a layout-edge alphabet (adds, weighted adds, bins, merges from every store kind, copies, clears, reweightings, binary and protobuf round trips, reads), from every seed state, is executed on the real dense, sparse and buffered-paginated stores (alphabets include zero, fractional and large weights, self-merges, early-stopped iterations, a protobuf message held while its source changes and the streaming protobuf writer); each distinct concrete state is compared observer by observer with the mathematical index->weight map. Bounded-exhaustive: a coverage statement over all histories within the bound, not a sample.",
   "Trusted: the reference map (60 lines), the reflective state dump used only for pruning (a collision can prune, never alarm), dyadic weights. Not covered: histories deeper than the bound below each seed, indexes near +-2^31 for array-backed stores.",
   "DESIGN.md section 4 C04"),
  "C01": ("model_checking",
@@ -20,8 +20,8 @@ CHECKS = {
   "Trusted: the order-statistics oracle, the tolerance policy of DESIGN.md section 5. Not covered: inputs longer than the bound, values off the alphabet (bin membership at every edge is C03's job).",
   "DESIGN.md section 4 C01"),
  "C02": ("model_checking",
-  "explicit-state BFS over 3-sketch histories (add/merge/decode-merge/clear) vs single-sketch twin, frame clause on arguments",
-  "Every history of bounded depth over three real sketches of mixed store kinds sharing a mapping enumerates every partition of every small input and every merge order/tree; after each transition each sketch must be observation-identical to one sketch fed its whole input, and the argument of each merge must be observed unchanged.",
+  "explicit-state BFS over 3-sketch histories (add/weighted add/merge incl. self/decode-merge/clear/read) vs single-sketch twin, frame clause on arguments",
+  "Every history of bounded depth over three real sketches of mixed store kinds sharing a mapping enumerates every partition of every small (also weighted) input and every merge order/tree, including a sketch merged with itself and, for the paginated store paired with itself, receivers whose pages were cleared or whose buffer is past its compaction trigger; after each transition each sketch must be observation-identical to one sketch fed its whole input, and the argument of each merge must be observed unchanged.",
   "Trusted: the canonical observation (all public observers). Not covered: more than three live sketches; inputs longer than the depth.",
   "DESIGN.md section 4 C02"),
  "C05": ("model_checking",
@@ -56,12 +56,12 @@ CHECKS = {
   "DESIGN.md section 4 C14"),
  "C15": ("model_checking",
   "differential BFS: main world vs twin world in which Clear = replace by new object; key includes both dumps",
-  "Every bounded history (stores of all five kinds; sketches of both variants) is run in a main world and in a twin world where Clear is replaced by constructing a new object; corresponding slots must be observed identical after every transition; stale memory behind len is part of the state key so states differing only in garbage are both extended.",
+  "Every bounded history (stores of all five kinds; sketches of both variants; reads before Clear; a refused decode followed by Clear) is run in a main world and in a twin world where Clear is replaced by constructing a new object; corresponding slots must be observed identical after every transition; stale memory behind len is part of the state key so states differing only in garbage are both extended.",
   "Model-free. Not covered: histories deeper than the bound below each seed.",
   "DESIGN.md section 4 C15"),
  "C16": ("model_checking",
   "differential transition oracle on every Reweight transition of an explicit-state BFS: content after = content before x w",
-  "Every state of depth below the bound of store worlds (all kinds) and sketch worlds (both variants) receives Reweight(w), w in {2^-10, 1/2, 1, 2, 3}; the content after must be exactly the content before with every weight scaled (stores: all observers; sketches: bins, zero weight, count, exact sum scaled, exact extremes unchanged).",
+  "Every state of depth below the bound of store worlds (all kinds; with reads, copies and reweights of both slots) and sketch worlds (both variants) receives Reweight(w), w in {2^-10, 1/2, 1, 2, 3}; the content after must be exactly the content before with every weight scaled (stores: all observers; sketches: bins, zero weight, count, exact sum scaled, exact extremes unchanged).",
   "Model-free (the expectation is the real content before the call, scaled). Not covered: non-dyadic weights or factors.",
   "DESIGN.md section 4 C16"),
  "C03": ("exploration",
@@ -91,7 +91,7 @@ CHECKS = {
   "DESIGN.md section 4 C09"),
  "C17": ("exploration",
   "exhaustive enumeration of conversions (mapping pairs x scales incl. bin-aligned x stores x variants x single-bin and small sources)",
-  "All ordered pairs of mappings of the grid (plus integer offset shifts of the same base, which align bins exactly) x 11 scales x store kind pairs x both variants x every single-bin source of a window and small multi-bin sources; each conversion is judged on source purity, carried mapping, zero weight, weight conservation, absence of negative bins, overlap, the composed accuracy bound on quantiles, identity = copy, and rescaled exact statistics.",
+  "All ordered pairs of mappings of the grid (plus integer offset shifts of the same base, which align bins exactly) x 11 scales x store kind pairs x both variants x every single-bin source of a window, small multi-bin sources and single values at 1e-100..1e100, sparse sources under every explored map order; each conversion is judged on source purity, carried mapping, zero weight, weight conservation, absence of negative bins, overlap, the composed accuracy bound on quantiles, identity = copy, and rescaled exact statistics.",
   "Trusted: the composed bound (1-a2)/(1+a1) <= y/(s x) <= (1+a2)/(1-a1). Not covered: sources outside [2e-3, 5e2] or scales outside [1e-3, 1e3].",
   "DESIGN.md section 4 C17"),
  "C18": ("exploration",
